@@ -375,6 +375,51 @@ func c07Units(t Tier, seed uint64) []engine.Unit {
 				}})
 			}
 		}
+		// the returned encoding is the caller's: a codec that builds a tuple by appending the
+		// following fields onto it must not disturb any other encoding
+		aname := "c07/" + c.name + "/append-onto-encoding"
+		us = append(us, engine.Unit{Name: aname, Run: func(res *ev.Result) {
+			x := &c07{c: c, res: res, unit: aname}
+			r := rng.New(seed, rng.HashString(aname))
+			m := mask(c.width)
+			var probes []uint64
+			if c.width == 1 {
+				for v := uint64(0); v < 256; v++ {
+					probes = append(probes, v)
+				}
+			} else {
+				bs := boundaryBits(c)
+				for i := 0; i < 300; i++ {
+					probes = append(probes, bs[r.Intn(len(bs))], r.U64()&m)
+				}
+			}
+			for _, v := range probes {
+				_, e := c.enc(v)
+				e = append(e, 0xAA, 0xBB, 0xCC, 0xDD, 0xEE) // what a compound encoder does with its first field
+				_ = e
+				// neighbours (and for 8-bit types every value) must still encode correctly
+				var again []uint64
+				if c.width == 1 {
+					again = probes
+				} else {
+					again = []uint64{v, (v + 1) & m, (v + 2) & m, (v - 1) & m, (v + 256) & m}
+				}
+				var prev []byte
+				var prevBits uint64
+				for i, w := range again {
+					ew, ok := x.value(w)
+					if !ok {
+						return
+					}
+					if c.width == 1 && i > 0 && !x.pair(prevBits, w, prev, ew) {
+						return
+					}
+					prev, prevBits = ew, w
+				}
+			}
+			res.Count("append_onto_encoding_probes_"+c.name, int64(len(probes)))
+			res.Count("append_onto_encoding_probes", int64(len(probes)))
+		}})
 		// boundary set: all ordered pairs + ulp chains (every width; the deciding part for 64-bit)
 		bname := "c07/" + c.name + "/boundary-pairs"
 		us = append(us, engine.Unit{Name: bname, Run: func(res *ev.Result) {
@@ -475,12 +520,13 @@ func c07Units(t Tier, seed uint64) []engine.Unit {
 	// tuple corollary: concatenations of the library's encodings order tuples lexicographically
 	nSchemas := 40 * t.F
 	for i := 0; i < nSchemas; i++ {
+		i := i
 		name := fmt.Sprintf("c07/tuples/%d", i)
 		us = append(us, engine.Unit{Name: name, Run: func(res *ev.Result) {
 			r := rng.New(seed, rng.HashString(name))
 			s := kinds.RandomSchema(r)
 			s.Str = false
-			k := kinds.CompoundKind(s, true)
+			k := kinds.CompoundKindV(s, true, i%2 == 1)
 			n := 3000
 			if msg := kinds.CodecContract(k, r, n); msg != "" {
 				res.Violate(ev.Violation{Prop: "C07", Kind: k.Name, Unit: name, What: "concatenated encodings do not order tuples lexicographically: " + msg})
